@@ -50,6 +50,12 @@ deriving Repr
 inductive Quantile | minToFast | fastToNormal | normalToUpper | upperToMax
 deriving Repr, DecidableEq
 
+/-- `u64::MAX` -/
+def U64_MAX : Nat := 18446744073709551615
+
+/-- `u64::saturating_add` -/
+def satAdd64 (a b : Nat) : Nat := min (a + b) U64_MAX
+
 /-- `TimeAnalyzer::push_time` -/
 def Analyzer.pushTime (a : Analyzer) (time : Nat) : Analyzer × Quantile :=
   let a :=
@@ -58,9 +64,9 @@ def Analyzer.pushTime (a : Analyzer) (time : Nat) : Analyzer × Quantile :=
     else
       let sorted := a.trace.mergeSort (fun x y => decide (x ≤ y))
       { trace := sorted.set 0 time, index := 1,
-        fast := (a.fast + sorted.getD FAST_INDEX 0) / 2,
-        normal := (a.normal + sorted.getD NORMAL_INDEX 0) / 2,
-        low := (a.low + sorted.getD LOW_INDEX 0) / 2 }
+        fast := satAdd64 a.fast (sorted.getD FAST_INDEX 0) / 2,
+        normal := satAdd64 a.normal (sorted.getD NORMAL_INDEX 0) / 2,
+        low := satAdd64 a.low (sorted.getD LOW_INDEX 0) / 2 }
   let q :=
     if time ≤ a.fast then Quantile.minToFast
     else if time ≤ a.normal then Quantile.fastToNormal
@@ -187,5 +193,10 @@ def markSlow (s : Inflight) (now tip : Nat) : Inflight :=
   let slow := s.states.filter (fun e => decide (e.1.number ≤ tip + 1))
   let fresh := slow.filter (fun e => !s.trace.any (fun t => t.1 == e.1))
   { s with trace := s.trace ++ fresh.map (fun e => (e.1, now)) }
+
+/-- the two `pub(crate)` policy fields: `Synchronizer::notify` clears `adjustment` after IBD, the
+crate's tests set `protect_num` (hook `verif_set_policy`) -/
+def setPolicy (s : Inflight) (adjustment : Bool) (protectNum : Nat) : Inflight :=
+  { s with adjustment := adjustment, protectNum := protectNum }
 
 end CkbVerif.Inflight
